@@ -171,6 +171,12 @@ fn run_batch(cases: &[Case], dir: &std::path::Path, workers: usize, shrink_budge
                     break;
                 }
                 // died (or stopped early): the culprit is the case that began but did not end
+                if let Err(e) = &status {
+                    // the harness binary itself could not be started (e.g. replaced during the run):
+                    // that says nothing about the formatter
+                    eprintln!("c10: cannot start worker {:?}: {}", exe, e);
+                    std::process::exit(3);
+                }
                 let err = match &status {
                     Ok(o) => format!("exit {:?}: {}", o.status.code(), String::from_utf8_lossy(&o.stderr).chars().rev().take(400).collect::<String>().chars().rev().collect::<String>()),
                     Err(e) => format!("spawn failed: {}", e),
@@ -457,7 +463,7 @@ fn fixed_cases() -> Vec<Case> {
     let layout: Vec<_> = styles.iter().filter(|(n, _)| n.starts_with("layout")).collect();
     let mut made = 0;
     let mut attempt = 0;
-    while made < 12 && attempt < 200 {
+    while made < 24 && attempt < 400 {
         attempt += 1;
         let depth = 2 + rng.below(3) as u32;
         let decls = 1 + rng.below(4) as usize;
@@ -629,7 +635,7 @@ fn main() {
     cases.extend(fixed_cases());
 
     // ---- (i) generated programs --------------------------------------------------------
-    let n_programs: usize = args.extra.get("programs").and_then(|s| s.parse().ok()).unwrap_or(if thorough { 400 } else { 40 });
+    let n_programs: usize = args.extra.get("programs").and_then(|s| s.parse().ok()).unwrap_or(if thorough { 400 } else { 16 });
     let styles = pgen::styles();
     let mut gen_texts = 0usize;
     let mut construct_hist = Hist::default();
@@ -671,6 +677,9 @@ fn main() {
     }
 
     // ---- (ii) repository files -----------------------------------------------------------
+    // quick tier: the repository part does not depend on the seed (its perturbations and comment
+    // positions come from a constant stream), so that what it finds is the same in every run
+    let mut repo_rng = if thorough { rng.clone() } else { Rng::new(0xC10_0002) };
     let files = glu_files();
     let mut n_files = 0;
     for f in &files {
@@ -683,8 +692,8 @@ fn main() {
         // the way `gluon fmt` does it: implicit prelude on (the imported std modules need it)
         let base = Case { family: "repo".into(), name: rel.clone(), src, prelude: true };
         cases.push(Case { family: "repo:as-is".into(), ..base.clone() });
-        perturbations(&base, &mut rng, if thorough { 7 } else { 3 }, &mut cases);
-        comment_variants(&base, &mut rng, false, if thorough { 6 } else { 1 }, &mut cases);
+        perturbations(&base, &mut repo_rng, if thorough { 7 } else { 3 }, &mut cases);
+        comment_variants(&base, &mut repo_rng, false, if thorough { 6 } else { 1 }, &mut cases);
     }
 
     // ---- run -------------------------------------------------------------------------------
